@@ -151,7 +151,7 @@ class CreditControlAnswer(CreditControl):
         AvpGenDef("qos_final_unit_indication", AVP_QOS_FINAL_UNIT_INDICATION, type_class=QosFinalUnitIndication),
         AvpGenDef("check_balance_result", AVP_CHECK_BALANCE_RESULT),
         AvpGenDef("credit_control_failure_handling", AVP_CREDIT_CONTROL_FAILURE_HANDLING),
-        AvpGenDef("credit_control_failure_handling", AVP_CREDIT_CONTROL_FAILURE_HANDLING),
+        AvpGenDef("direct_debiting_failure_handling", AVP_DIRECT_DEBITING_FAILURE_HANDLING),
         AvpGenDef("validity_time", AVP_VALIDITY_TIME),
         AvpGenDef("redirect_host", AVP_REDIRECT_HOST),
         AvpGenDef("redirect_host_usage", AVP_REDIRECT_HOST_USAGE),
@@ -163,7 +163,7 @@ class CreditControlAnswer(CreditControl):
         AvpGenDef("low_balance_indication", AVP_TGPP_LOW_BALANCE_INDICATION, VENDOR_TGPP),
         AvpGenDef("remaining_balance", AVP_TGPP_REMAINING_BALANCE, VENDOR_TGPP, type_class=RemainingBalance),
         AvpGenDef("oc_supported_features", AVP_OC_SUPPORTED_FEATURES, type_class=OcSupportedFeatures),
-        AvpGenDef("oc_olr", AVP_OC_OLR, VENDOR_TGPP, type_class=OcOlr),
+        AvpGenDef("oc_olr", AVP_OC_OLR, type_class=OcOlr),
         AvpGenDef("service_information", AVP_TGPP_SERVICE_INFORMATION, VENDOR_TGPP, type_class=ServiceInformation),
         AvpGenDef("bearer_control_mode", AVP_TGPP_BEARER_CONTROL_MODE, VENDOR_TGPP),
         AvpGenDef("charging_rule_install", AVP_TGPP_CHARGING_RULE_INSTALL, VENDOR_TGPP, type_class=ChargingRuleInstall),
